@@ -161,7 +161,9 @@ AV1C = {"size": None, "fields": [
     (1, "const", b"\x81", "marker=1 version=1"),
     (1, "any", None, "seq_profile(3) seq_level_idx_0(5)"),
     (1, "any", None, "tier/bitdepth/mono/subsampling/position"),
-    (1, "mask", (b"\xe0", b"\x00"), "reserved(3)=0 + initial_presentation_delay"),
+    (1, "pred", (lambda bs: (bs[0] & 0xE0) == 0 and ((bs[0] & 0x10) != 0 or (bs[0] & 0x0F) == 0),
+                 "reserved(3) = 0; when initial_presentation_delay_present (0x10) is 0 the low four bits are reserved = 0"),
+     "reserved(3)=0 + initial_presentation_delay_present(1) + delay_minus_one(4) | reserved(4)=0"),
 ], "tail": "blob:sequence_header"}
 
 VPCC = {"size": 12, "fields": [
